@@ -666,29 +666,35 @@ func c20BuildSlip(c *lib.Ctx) string {
 	return bin
 }
 
-// c20Slip runs one REPL process on the config directory with the given input lines.
+// c20Slip runs one REPL process on the config directory with the given input lines. A process that
+// does not finish is run once more, alone in time, with a far longer limit before the run is given up
+// as a machinery problem (exit 2) — never a verdict about slip.
 func c20Slip(bin, dir, home string, lines []string) (string, bool) {
-	cmd := exec.Command(bin, "-c", dir)
-	cmd.Dir = home
-	cmd.Env = []string{"HOME=" + home, "PATH=" + os.Getenv("PATH"), "TERM=dumb"}
-	cmd.Stdin = strings.NewReader(strings.Join(lines, "\n") + "\n")
-	var out bytes.Buffer
-	cmd.Stdout = &out
-	cmd.Stderr = &out
-	done := make(chan error, 1)
-	if err := cmd.Start(); err != nil {
-		return err.Error(), false
+	for attempt, limit := range []time.Duration{120 * time.Second, 900 * time.Second} {
+		cmd := exec.Command(bin, "-c", dir)
+		cmd.Dir = home
+		cmd.Env = []string{"HOME=" + home, "PATH=" + os.Getenv("PATH"), "TERM=dumb"}
+		cmd.Stdin = strings.NewReader(strings.Join(lines, "\n") + "\n")
+		var out bytes.Buffer
+		cmd.Stdout = &out
+		cmd.Stderr = &out
+		done := make(chan error, 1)
+		if err := cmd.Start(); err != nil {
+			return err.Error(), false
+		}
+		go func() { done <- cmd.Wait() }()
+		select {
+		case <-done:
+			return out.String(), true
+		case <-time.After(limit):
+			_ = cmd.Process.Kill()
+			<-done
+			fmt.Fprintf(os.Stderr, "c20: the slip process did not finish within %v (attempt %d, input %q); output so far: %s\n", limit, attempt+1, lines, lastLines(out.String(), 6))
+		}
+		// the lines are setq forms of fixed values or read-only checks: running them again is harmless
 	}
-	go func() { done <- cmd.Wait() }()
-	select {
-	case <-done:
-	case <-time.After(90 * time.Second):
-		// not a verdict about slip: the machine is overloaded or the process hangs
-		_ = cmd.Process.Kill()
-		fmt.Fprintf(os.Stderr, "c20: the slip process did not finish within 90 s (input %q); output so far: %s\n", lines, lastLines(out.String(), 6))
-		os.Exit(2)
-	}
-	return out.String(), true
+	os.Exit(2)
+	return "", false
 }
 
 func c20RunCfgCase(c *lib.Ctx, bin, base string, cs c20CfgCase, reply string) *c20Problem {
